@@ -42,7 +42,7 @@ SIM_COMMON := sim/kernel/kernel sim/codec/wire sim/core/core
 SIM_COMMON_OBJS := $(addprefix $(B)/obj/,$(addsuffix .o,$(SIM_COMMON)))
 SIMBUS_SRCS := sim/harness/simbus sim/harness/busworld sim/harness/exec sim/harness/gen sim/model/busmodel sim/model/matchrule sim/model/policy
 SIMBUS_OBJS := $(addprefix $(B)/obj/,$(addsuffix .o,$(SIMBUS_SRCS)))
-SIMLIB_SRCS := sim/harness/simlib sim/harness/libworld sim/harness/libchecks sim/harness/libstream sim/harness/libpending sim/harness/libtree sim/harness/libauth sim/sched/sched
+SIMLIB_SRCS := sim/harness/simlib sim/harness/libworld sim/harness/libchecks sim/harness/libstream sim/harness/libpending sim/harness/libtree sim/harness/libauth sim/harness/liboom sim/sched/sched
 SIMLIB_OBJS := $(addprefix $(B)/obj/,$(addsuffix .o,$(SIMLIB_SRCS)))
 
 WRAPS := socket socketpair bind listen accept accept4 connect getsockname getpeername getsockopt setsockopt \
